@@ -79,6 +79,7 @@ func init() {
 			add(ShutdownParams{Case: "earlyclose", Checkpoint: "auto", Membership: "couchbase", APIInfo: true, MaxPoint: 4}, 1)
 			add(ShutdownParams{Case: "slowmitigationstart", Checkpoint: "auto", Mitigation: true, Membership: "static", MaxPoint: 8}, 1)
 			add(ShutdownParams{Case: "windowack", Checkpoint: "auto", Membership: "static", MaxPoint: 4}, 1)
+			out = append(out, Instance{Scenario: "c12_afterrebalance", Params: mustJSON(AfterRebParams{ReopenedBefore: true}), Bound: 0, Shards: 8, Note: "the Close() of a rebalance stops every stream of the session, also one the library had re-opened after a transient end (at a shutdown the connection is closed as well, at a rebalance it is not)"})
 			add(ShutdownParams{Case: "reopenedclose", Checkpoint: "auto", Membership: "static", MaxPoint: 4}, 1)
 			add(ShutdownParams{Case: "reopenedclose", Checkpoint: "auto", Membership: "static", MaxPoint: 4, OldServer: true}, 1)
 			add(ShutdownParams{Case: "duringstart", Checkpoint: "auto", Mitigation: true, Health: true, Membership: "static", MaxPoint: 120}, 4)
